@@ -73,7 +73,7 @@ def spec(world, root, limit):
     return defects or {"ok"}
 
 
-def write_world(root_dir, world):
+def write_world(root_dir, world, outputs_of=None):
     for d, p in enumerate(world):
         pd = os.path.join(root_dir, f"d{d}")
         os.makedirs(pd, exist_ok=True)
@@ -81,6 +81,8 @@ def write_world(root_dir, world):
         if p["imports"]:
             man.append("imports:")
             man += [f"  - ../d{i}" for i in p["imports"]]
+        if outputs_of == d:
+            man += ["python:", "  outputDir: ../out_py", "json:", "  outputDir: ../out_json"]
         open(os.path.join(pd, "_package.yml"), "w").write("\n".join(man) + "\n")
         lines = [f"T{d}: int"]
         seen = set()
@@ -160,6 +162,20 @@ def run(report, tier, seed):
             worlds.append(chain)
         for idx, world in enumerate(worlds):
             _judge(report, sc, ybin, lean, world, 0, limit, idx, rng, seed)
+        # usable: every order of every import list of the diamond / shortcut worlds (all are accepted)
+        k = 0
+        for w in _usable_worlds(limit):
+            orders = list(itertools.product(*[list(itertools.permutations(p["imports"])) for p in w]))
+            if len(orders) > (12 if quick else 200):
+                orders = rng.sample(orders, 12 if quick else 200)
+            for combo in orders:
+                k += 1
+                _usable(report, sc, ybin, [{"ns": p["ns"], "imports": list(c)} for p, c in zip(w, combo)], 0, k, seed)
+        # and random accepted worlds
+        acc = [w for w in worlds if 3 <= len(w) <= 8 and spec(w, 0, limit) == {"ok"} and sum(len(p["imports"]) for p in w) >= 3]
+        for w in (acc[:10] if quick else acc[:150]):
+            k += 1
+            _usable(report, sc, ybin, w, 0, k, seed)
         lean.close()
 
 
@@ -205,6 +221,47 @@ def _judge(report, sc, ybin, lean, world, root, limit, idx, rng, seed, permuted=
             # the property only demands *an* error; which check fires first (namespace on the import chain
             # before namespace/directory conflict) is not part of it
             report.count(f"error-class.{sorted(s)[0]}-reported-as-{cli}")
+
+
+def _usable(report, sc, ybin, world, root, tag, seed):
+    """an accepted world is generated (Python) and the package imported: every importer can use the types of what it imports
+    (write_world gives every package an alias to a type of each package it imports), whatever the order of the import lists"""
+    import subprocess
+    d = sc.path(f"u{tag}")
+    write_world(d, world, outputs_of=root)
+    rc, out, err = vlib.yardl(ybin, os.path.join(d, f"d{root}"), "generate", timeout=30)
+    report.case(distinct_key=("usable", json.dumps(world), root))
+    report.count("usable.generated")
+    replay = {"world": world, "root": root, "seed": seed, "what": "generate Python for an accepted world and import it"}
+    if rc != 0:
+        report.violation("accepted-world-does-not-generate", dict(replay, output=(out + err)[-1200:]), "yardl validate accepts the import graph but generate fails")
+        shutil.rmtree(d, ignore_errors=True)
+        return None
+    mods = [x for x in os.listdir(os.path.join(d, "out_py")) if os.path.isdir(os.path.join(d, "out_py", x))]
+    mod = mods[0] if len(mods) == 1 else "no_single_generated_package"
+    p = subprocess.run(["python3-vt", "-c", f"import sys; sys.path.insert(0, {os.path.join(d, 'out_py')!r}); import {mod}"], stdout=subprocess.PIPE, stderr=subprocess.PIPE, timeout=120)
+    if p.returncode != 0:
+        last = (p.stderr.decode(errors="replace").strip().splitlines() or ["?"])[-1]
+        report.violation("imported-types-not-usable:" + re.sub(r"\d+", "N", last)[:80], dict(replay, stderr=p.stderr.decode(errors="replace")[-1500:]),
+                         "the generated code of a package cannot use the types of a package it imports")
+    # the JSON model dump lists the loaded namespaces: same set whatever the order
+    dump = ""
+    try:
+        dump = open(os.path.join(d, "out_json", "model.json")).read()
+    except OSError:
+        pass
+    shutil.rmtree(d, ignore_errors=True)
+    return dump
+
+
+def _usable_worlds(limit):
+    """diamonds and shortcut edges: a package reachable along several paths, first reached through different importers"""
+    ws = []
+    ws.append([{"ns": 0, "imports": [1, 2]}, {"ns": 1, "imports": []}, {"ns": 2, "imports": [1]}])                       # Top [Basic, Mid], Mid [Basic]
+    ws.append([{"ns": 0, "imports": [1, 2]}, {"ns": 1, "imports": [3]}, {"ns": 2, "imports": [3]}, {"ns": 3, "imports": []}])   # diamond
+    ws.append([{"ns": 0, "imports": [1, 2, 3]}, {"ns": 1, "imports": [2, 3]}, {"ns": 2, "imports": [3]}, {"ns": 3, "imports": []}])  # every shortcut
+    ws.append([{"ns": 0, "imports": [1, 2]}, {"ns": 1, "imports": [3, 4]}, {"ns": 2, "imports": [4, 3]}, {"ns": 3, "imports": [4]}, {"ns": 4, "imports": []}])
+    return ws
 
 
 def _reach(world, root):
